@@ -613,15 +613,17 @@ class TDS(BaseRoutine):
         # do not skip over the end time
         self.h = max(min(self.h, config.tf - system.dae.t), 0)
 
-        # skip the first switch at the exact first time step to avoid h == 0
-        if self._switch_idx < system.n_switches:
-            if (not resume) and (system.dae.t == system.switch_times[self._switch_idx]):
-                self._switch_idx += 1
+        # An event at the exact first time step is dispatched by `do_switch` after
+        # that step. Look past it for clipping to avoid h == 0, but do not drop it.
+        switch_idx = self._switch_idx
+        if switch_idx < system.n_switches:
+            if (not resume) and (system.dae.t == system.switch_times[switch_idx]):
+                switch_idx += 1
 
         # do not skip over event switch_times
-        if self._switch_idx < system.n_switches:
-            if (system.dae.t + self.h) > system.switch_times[self._switch_idx]:
-                self.h = system.switch_times[self._switch_idx] - system.dae.t
+        if switch_idx < system.n_switches:
+            if (system.dae.t + self.h) > system.switch_times[switch_idx]:
+                self.h = system.switch_times[switch_idx] - system.dae.t
 
         if self.data_csv is not None:
             if self.k_csv + 1 < self.data_csv.shape[0]:
